@@ -12,8 +12,10 @@ CONSTANTS NPlates,        \* plates are 0..NPlates-1 (plate ids)
           Export
 
 VARIABLES k, sampleOf, observed,   \* configuration, chosen in Init
-          batch                    \* sequence of selected plate ids (selection order)
-vars == <<k, sampleOf, observed, batch>>
+          batch,                   \* sequence of selected plate ids (selection order)
+          flow                     \* "prospective": batch plates stay unobserved until the batch is run in the laboratory;
+                                   \* "retrospective": every selected plate is revealed before the next one is chosen
+vars == <<k, sampleOf, observed, batch, flow>>
 
 Plates == 0..NPlates - 1
 InBatch(b) == {b[x] : x \in 1..Len(b)}
@@ -35,10 +37,12 @@ Init == /\ k \in Ks
         /\ sampleOf \in [Plates -> Samples]
         /\ observed \in [Plates -> BOOLEAN]
         /\ batch = << >>
+        /\ flow \in {"prospective", "retrospective"}
 
 Select(p) == /\ p \in Allowed(batch)
              /\ batch' = Append(batch, p)
-             /\ UNCHANGED <<k, sampleOf, observed>>
+             /\ observed' = IF flow = "retrospective" THEN [observed EXCEPT ![p] = TRUE] ELSE observed
+             /\ UNCHANGED <<k, sampleOf, flow>>
 SelectAny == \E p \in Plates : Select(p)
 Next == SelectAny
 Spec == Init /\ [][Next]_vars
@@ -55,6 +59,6 @@ NeverMoreThanK == \A s \in Samples : BatchCount(batch, s) <= k
 
 ExportState == Export =>
     PrintT(ToJson([tag |-> "kps", k |-> k, sampleOf |-> [p \in 1..NPlates |-> sampleOf[p - 1]],
-                   observed |-> [p \in 1..NPlates |-> observed[p - 1]], batch |-> batch,
+                   observed |-> [p \in 1..NPlates |-> observed[p - 1]], batch |-> batch, flow |-> flow,
                    allowed |-> Allowed(batch)]))
 =============================================================================
